@@ -61,8 +61,11 @@ pub fn scenario(ctx: &Ctx, idx: u64, check: &'static str, stream: &'static str) 
         let n = rng.gen_range(1..=8usize);
         let all_contacts_start = rng.gen_bool(0.5);
         let mut plans: Vec<ContactPlan> = Vec::new();
+        // the partition in which every contact goes silent is drawn on purpose in a fifth of the
+        // long runs (it is the only one in which the node ends up with nobody to talk to)
+        let p_silent = if long_run && rng.gen_bool(0.2) { 1.0 } else { 0.45 };
         for i in 0..n {
-            let silent_at = if rng.gen_bool(0.45) {
+            let silent_at = if rng.gen_bool(p_silent) {
                 Some(match rng.gen_range(0..4) {
                     0 => rng.gen_range(0..MIN),
                     1 => rng.gen_range(0..20 * MIN),
@@ -82,11 +85,20 @@ pub fn scenario(ctx: &Ctx, idx: u64, check: &'static str, stream: &'static str) 
                 },
             });
         }
-        // at least one responsive contact among the start contacts, otherwise nothing ever happens
+        // At least one contact must answer at the start, otherwise nothing ever happens. In a quarter
+        // of the runs where every contact was drawn silent the partition stays all-silent (the node is
+        // left with nobody to talk to: bootstrap retries in vain, only the refresh ages the table);
+        // the start contact then goes silent last and not before the second minute.
         if plans.iter().all(|p| p.silent_at.is_some()) {
-            plans[0].silent_at = None;
+            if long_run && (p_silent == 1.0 || rng.gen_bool(0.5)) {
+                let latest = plans.iter().map(|p| p.silent_at.unwrap()).max().unwrap().max(rng.gen_range(2 * MIN..40 * MIN));
+                plans[0].silent_at = Some(latest.min(total.saturating_sub(30 * MIN)));
+                report.count("c11_runs_where_every_contact_goes_silent");
+            } else {
+                plans[0].silent_at = None;
+            }
         }
-        plans.sort_by_key(|p| p.silent_at.is_some());
+        plans.sort_by_key(|p| (p.silent_at.is_some(), std::cmp::Reverse(p.silent_at)));
 
         let nodes: Vec<WNode> = plans
             .iter()
